@@ -287,7 +287,13 @@ func webuiMain(rc *RunCtx) {
 			continue
 		}
 		rc.Progress()
-		if rec.Code == 200 && strings.HasPrefix(ct, "text/html") && method != "HEAD" {
+		isFile := false // a file of the torrent, served as it is: not a generated page
+		for _, ft := range fileTargets {
+			if target == ft {
+				isFile = true
+			}
+		}
+		if rec.Code == 200 && strings.HasPrefix(ct, "text/html") && method != "HEAD" && !isFile {
 			simrt.Probe("html-page-checked")
 			if what, n := findInjection(body); what != "" {
 				rc.Fail("C19", "html-injection", markerSources[n], "%s %s: the page contains %s", method, target, what)
